@@ -228,7 +228,11 @@ def run_cases(prop, cases, tag="main", hbin=None, driver=None):
     with open(rf, "w") as fout:
         fout.write(out)
     with open(rf) as fin, open(vf, "w") as fout:
-        p = subprocess.run([driver or DRIVER, prop], stdin=fin, stdout=fout, stderr=subprocess.PIPE, env=ENV)
+        try:
+            p = subprocess.run([driver or DRIVER, prop], stdin=fin, stdout=fout, stderr=subprocess.PIPE, env=ENV,
+                               timeout=float(os.environ.get("VERIF_DRIVER_TIMEOUT", "3600")))
+        except subprocess.TimeoutExpired:
+            raise RuntimeError("model driver did not finish within the time limit (exact arithmetic blow-up?)")
     if p.returncode != 0:
         raise RuntimeError("driver failed rc=%d: %s" % (p.returncode, p.stderr.decode()[-2000:]))
     impl = open(rf).read().split("\n")
